@@ -96,7 +96,7 @@ const D: u16 = 0x4321;
 
 /// Growth already started (new index current, nothing migrated yet); a chain member K1 sits in the OLD index.
 /// Commits: more chain members (go to the new index), removal / replacement of K1, removal of a filler.
-fn pending_scenario(name: &str, n: usize, x: usize) -> Scenario {
+pub fn pending_scenario(name: &str, n: usize, x: usize) -> Scenario {
 	let mut spec = ColSpec::hash();
 	spec.uniform = true;
 	let mut cfg = Config::new(vec![spec]);
@@ -137,6 +137,61 @@ fn pending_scenario(name: &str, n: usize, x: usize) -> Scenario {
 	s
 }
 
+/// key of page `c` whose hash bits 16..48 (the 32-bit lane the vectorised page search compares) are all zero;
+/// `low` gives hash bits 48..56 (the partial key of a 16-bit index also holds bits 48 and 49)
+pub fn lane_key(c: u16, low: u8) -> B {
+	let mut k = vec![0u8; 32];
+	k[0] = (c >> 8) as u8;
+	k[1] = c as u8;
+	k[6] = low;
+	k[31] = low;
+	B::Hex(k)
+}
+
+/// Keys at the edges of the page search: partial key zero, compared lane zero with a non-zero partial key
+/// (two such keys: they agree in every bit the vectorised search compares), lane all ones; holes are made in
+/// front of them by removing earlier entries. Every commit is drained; reopen anywhere.
+fn lane_scenario(name: &str, n: usize, x: usize) -> Scenario {
+	let mut spec = ColSpec::hash();
+	spec.uniform = true;
+	let mut cfg = Config::new(vec![spec]);
+	cfg.salt = 0;
+	let ones = {
+		let mut k = vec![0xffu8; 32];
+		k[0] = (C >> 8) as u8;
+		k[1] = C as u8;
+		B::Hex(k)
+	};
+	let a = page_key(C, 1);
+	let alpha: Vec<Tx> = vec![
+		vec![(0, Op::Set(a.clone(), val(1)))],
+		vec![(0, Op::Set(lane_key(C, 0x40), val(2)))],
+		vec![(0, Op::Set(lane_key(C, 0x80), val(3)))],
+		vec![(0, Op::Set(lane_key(C, 0), val(4)))],
+		vec![(0, Op::Del(a.clone()))],
+		vec![(0, Op::Del(lane_key(C, 0x40)))],
+		vec![(0, Op::Set(lane_key(C, 0x80), val(13)))],
+		vec![(0, Op::Del(lane_key(C, 0x80)))],
+		vec![(0, Op::Set(ones.clone(), val(5)))],
+		vec![(0, Op::Del(lane_key(C, 0)))],
+	];
+	let mut s = Scenario::new(name, cfg.clone(), alpha.clone());
+	s.universe = universe_of(&cfg, &alpha, &[]);
+	s.max_commits = n;
+	s.max_rejects = 0;
+	s.max_reopen = x;
+	s.stages = vec![];
+	s.drain_event = true;
+	s.pm = false;
+	s.filter = Some(Arc::new(|hist: &[Ev], ev: &Ev| match (hist.last(), ev) {
+		(Some(Ev::Commit(_)), Ev::Drain) => true,
+		(Some(Ev::Commit(_)), _) => false,
+		(_, Ev::Drain) => false,
+		_ => true,
+	}));
+	s
+}
+
 pub fn scenarios(tier: &str) -> Vec<Scenario> {
 	if tier == "thorough" {
 		vec![
@@ -148,14 +203,14 @@ pub fn scenarios(tier: &str) -> Vec<Scenario> {
 			scenario("growth-power-loss/n1", 0, 1, 0, Some(CrashCfg { torn: 0, recovery_depth: 1, power_loss: true, max_full_subsets: 8, ..Default::default() })),
 		]
 	} else {
-		vec![scenario("growth/n1", 1, 1, 1, None), pending_scenario("growth-pending/n2", 2, 0), scenario("growth-crash/n1-growth-only", 9, 1, 0, Some(CrashCfg { torn: 0, recovery_depth: 1, ..Default::default() }))]
+		vec![lane_scenario("page-search-edges/n4", 4, 0), scenario("growth/n1", 1, 1, 1, None), pending_scenario("growth-pending/n2", 2, 0), scenario("growth-crash/n1-growth-only", 9, 1, 0, Some(CrashCfg { torn: 0, recovery_depth: 1, ..Default::default() }))]
 	}
 }
 
 pub fn run(tier: &str) -> ! {
 	let mut run = Run::new("C09", tier, "model_checking");
 	let budget = Budget::new(if tier == "thorough" { 5000.0 } else { 150.0 });
-	run.set("rule", json!("graph search from a state with one full 64-entry index page (uniform keys, zero salt = identity hashing): commits from {65th key of the page (growth to 17 bits), removal/replacement of keys still in the old index, a 3-key collision chain (equal in every index-visible bit) with one member removed, two more keys of the same half (second growth, triggered from a reindex batch), chain edits} interleaved with every stage event incl. reindex batches (R) and reopen; after every event every key ever written is read and compared with the model. Crash scenarios: every file-operation boundary of every edge of the growth (creation of the new index file, batch records, DropTable, unlink of the old file) is a crash point with the C02 recovery oracle"));
+	run.set("rule", json!("graph search from a state with one full 64-entry index page (uniform keys, zero salt = identity hashing): commits from {65th key of the page (growth to 17 bits), removal/replacement of keys still in the old index, a 3-key collision chain (equal in every index-visible bit) with one member removed, two more keys of the same half (second growth, triggered from a reindex batch), chain edits} (plus, in a scenario of its own, keys at the edges of the page search: partial key zero, compared 32-bit lane zero with non-zero partial key, lane all ones, with holes made in front of them) interleaved with every stage event incl. reindex batches (R) and reopen; after every event every key ever written is read and compared with the model. Crash scenarios: every file-operation boundary of every edge of the growth (creation of the new index file, batch records, DropTable, unlink of the old file) is a crash point with the C02 recovery oracle"));
 	run.assumptions = vec!["identity hashing needs the zero salt of the instrumentation build".into(), "at most 6 reindex-batch events per history".into()];
 	super::run_scenarios(&mut run, &scenarios(tier), &budget);
 	run.finish()
